@@ -31,7 +31,7 @@ Print Assumptions C16_expression_operations_reported.
 Example C16_example :
   let prog := [EAssign (TExt PEvent [SField (hx "61")]) (EQExt PEvent [SField (hx "62"); SIndex 0]);
                EIf [EExistsExt PMeta [SField (hx "6d")]] [EDelExt PEvent [SField (hx "63")] true] None] in
-  queries_l prog = [(PEvent, [SField (hx "62"); SIndex 0]); (PMeta, [SField (hx "6d")]); (PEvent, [SField (hx "63")])]
+  query_paths prog = [(PEvent, [SField (hx "62"); SIndex 0]); (PMeta, [SField (hx "6d")]); (PEvent, [SField (hx "63")])]
   /\ assigns_l prog = [(PEvent, [SField (hx "61")])]
   /\ rev (tlog (snd (run_inst prog (st0 [] (VObj []) (VObj [(hx "6d", VInt 1)]))))) =
       [TGet PEvent [SField (hx "62"); SIndex 0]; TIns PEvent [SField (hx "61")]; TGet PMeta [SField (hx "6d")];
